@@ -608,6 +608,13 @@ func c17ObjectHistoryTrial(run *vk.Run, kind string, Q int, client int64, patter
 		}
 		switch {
 		case e == "L":
+		case e == "P": // a mapping without expiry date, as created through the management API / for registered users
+			m.ExpiresAt = nil
+			if err := w.pmRepo.UpdatePortMapping(m); err != nil {
+				run.Count(kind+"_prefill_refused", 1)
+				return
+			}
+			run.Count(kind+"_object_history_permanent_entries", 1)
 		case e == "X": // the record exists but cannot be decoded (a field of an incompatible type)
 			_ = w.mem.Set(recKey, fmt.Sprintf(`{"id":%q,"listen_client_id":"not-a-number","target_client_id":[1],"created_at":17}`, id), time.Hour)
 		case e == "T": // the record exists but the stored value has another type
@@ -1431,7 +1438,7 @@ func c17QuotaMonitor(t *testing.T, kind, name string) {
 		"mode free: spin barrier only; mode sched: every storage operation is a gate of vk.Sched with a seeded random chooser (N in {2,8}); mode explore: N=2, all schedules with <=2 (thorough: 3) preemptions (capped by runs and by total scheduling steps); 1 in 5 trials places the racers on two service nodes sharing the store. " +
 		"interposed-read: one admission with a lock-free read request of the same client (list codes / list mappings, node 0 or 1) served before its j-th storage operation, for every j, then admissions until refused; half of the sched trials add such a reader thread. " +
 		"staggered: k in {3,4,5} requests of one client at occupancy Q-2, each started while its predecessor is held at its first mutating storage operation (inside the count-then-create section), predecessor released, successor gets inside and is held, next one starts ...; " +
-		"object histories: the client's index built entry by entry (live entries, entries whose records are gone - deleted or expired by a 15 ms TTL - before/between/after the live ones, mappings whose status was rewritten with other spellings, records that exist but cannot be loaded (undecodable JSON, wrong stored type), owner ids 1..2^63-1), then requests until refused; usable records are counted with the product's own validity predicates. " +
+		"object histories: the client's index built entry by entry (live entries, entries whose records are gone - deleted or expired by a 15 ms TTL - before/between/after the live ones, mappings whose status was rewritten with other spellings, mappings without expiry date, records that exist but cannot be loaded (undecodable JSON, wrong stored type), owner ids 1..2^63-1), then requests until refused; usable records are counted with the product's own validity predicates. " +
 		"sequential-across-nodes: Q+3 strictly sequential requests served in turn by 2-3 nodes that each sit behind their own HybridStorage (local cache + one shared cache, default prefix routing); claim-held (code quota): owner at quota, an activation of one of his codes suspended after taking the claim, one more code requested, then the activation fails on the mapping write and is released; 1 in 10 hold trials uses the hybrid deployment. " +
 		"index-writers (mapping quota): X's activation and the activation by Y of a code whose target is X, one suspended before each of its storage operations while the other completes, then X activates until refused; read-fault: at the quota, one more request whose k-th storage read fails once, every k. " +
 		"The quota is judged on max(service count, usable records found in the store). distinct = (mode, Q, prefill, N, K, admitted, racers between count and record) and schedule fingerprints")
@@ -1445,6 +1452,9 @@ func c17QuotaMonitor(t *testing.T, kind, name string) {
 	run.Floor(pre+"read_faults_injected", 5)
 	run.Floor(pre+"object_histories", 40)
 	run.Floor(pre+"object_histories_with_unloadable_record", 10)
+	if kind == "mapping-quota" {
+		run.Floor("mapping-quota_object_history_permanent_entries", 10)
+	}
 	run.Floor(pre+"staggered_arrivals_while_predecessor_inside", 20)
 	run.Floor(pre+"object_history_refused_at_quota", 20)
 	run.Floor(pre+"sequential_nodes_refused_at_quota", 10)
@@ -1542,7 +1552,7 @@ func c17QuotaMonitor(t *testing.T, kind, name string) {
 		}
 	} else {
 		for _, Q := range []int{1, 2, 3} {
-			for _, sp := range []string{"Active", "ACTIVE", " active", "active ", "inactive", ""} {
+			for _, sp := range []string{"P", "Active", "ACTIVE", " active", "active ", "inactive", ""} {
 				pat := make([]string, Q)
 				for i := range pat {
 					pat[i] = "L"
